@@ -266,23 +266,23 @@ TTB = 'cirbo/core/truth_table.py'
 PYF = 'cirbo/core/python_function.py'
 UTL = 'cirbo/core/utils.py'
 BFN = 'cirbo/core/boolean_function.py'
-M('c12-carry-back', 'C12', PYF, "                return False\n            old_value = value\n        return True", "                return False\n        return True", 'C12.CARRY')
+M('c12-carry-back', 'C12', PYF, "                return False\n            old_value = value\n        return True", "                return False\n        return True", 'C12.')
 M('c12-carry-tt', 'C12', TTB, "            if not ones_started and (value != inverse):\n                ones_started = True\n            elif ones_started and (value == inverse):\n                return False\n        return True\n\n    def is_symmetric",
-  "            if value == inverse and value != self._table[output_index][0]:\n                return False\n        return True\n\n    def is_symmetric", 'C12.CARRY')
-M('c12-carry-circuit', 'C12', CIRC, "                if change_value:\n                    return False\n                change_value = True\n                current_value = not current_value", "                if current_value != inverse:\n                    return False", 'C12.CARRY')
+  "            if value == inverse and value != self._table[output_index][0]:\n                return False\n        return True\n\n    def is_symmetric", 'C12.')
+M('c12-carry-circuit', 'C12', CIRC, "                if change_value:\n                    return False\n                change_value = True\n                current_value = not current_value", "                if current_value != inverse:\n                    return False", 'C12.')
 M('c12-proto-missing', 'C12', TTB, "    def is_symmetric_at(self, output_index: int) -> bool:", "    def _is_symmetric_at(self, output_index: int) -> bool:", 'C12.PROTO')
 M('c12-proto-param', 'C12', PYF, "    def is_monotone_at(self, output_index: int, inverse: bool = False) -> bool:\n        \"\"\"\n        Check if output `output_index` is monotone (output value doesn't\n        decrease when inputs are enumerated in a classic order: 0000, 0001,\n        0010, 0011 ...).\n\n        :param output_index: index of desired output.\n        :param inverse: if True, will check that output value doesn't\n        increase when inputs are enumerated in classic order.\n        :return: True iff output `output_index` is monotone.\n\n        \"\"\"\n        ones_started = False\n        for x in itertools.product",
   "    def is_monotone_at(self, output_index: int, inverse: bool = True) -> bool:\n        \"\"\"\n        Check if output `output_index` is monotone (output value doesn't\n        decrease when inputs are enumerated in a classic order: 0000, 0001,\n        0010, 0011 ...).\n\n        :param output_index: index of desired output.\n        :param inverse: if True, will check that output value doesn't\n        increase when inputs are enumerated in classic order.\n        :return: True iff output `output_index` is monotone.\n\n        \"\"\"\n        ones_started = False\n        for x in itertools.product", 'C12.PROTO')
-M('c12-order-product', 'C12', PYF, "        table = [\n            self.evaluate(x)\n            for x in itertools.product((False, True), repeat=self.input_size)\n        ]", "        table = [\n            self.evaluate(x)\n            for x in itertools.product((True, False), repeat=self.input_size)\n        ]", 'C12.ORDER')
-M('c12-order-bit', 'C12', UTL, "    _shift = bit_size - bit_idx - 1", "    _shift = bit_idx", 'C12.ORDER')
-M('c12-order-index', 'C12', UTL, "    return int(''.join(str(int(v)) for v in inputs), 2)", "    return int(''.join(str(int(v)) for v in reversed(list(inputs))), 2)", 'C12.ORDER')
+M('c12-order-product', 'C12', PYF, "        table = [\n            self.evaluate(x)\n            for x in itertools.product((False, True), repeat=self.input_size)\n        ]", "        table = [\n            self.evaluate(x)\n            for x in itertools.product((True, False), repeat=self.input_size)\n        ]", 'C12.')
+M('c12-order-bit', 'C12', UTL, "    _shift = bit_size - bit_idx - 1", "    _shift = bit_idx", 'C12.')
+M('c12-order-index', 'C12', UTL, "    return int(''.join(str(int(v)) for v in inputs), 2)", "    return int(''.join(str(int(v)) for v in reversed(list(inputs))), 2)", 'C12.')
 M('c12-order-int-wrapper', 'C12', PYF, "            result = canonical_index_to_input(number, output_int_len)\n            if not big_endian:\n                result = result[::-1]\n            return result\n\n        return PyFunction(func=_func, input_size=input_int_len)",
-  "            result = canonical_index_to_input(number, output_int_len)\n            if big_endian:\n                result = result[::-1]\n            return result\n\n        return PyFunction(func=_func, input_size=input_int_len)", 'C12.ORDER')
-M('c12-deleg-any', 'C12', TTB, "        return all(self.is_constant_at(i) for i in range(self.output_size))", "        return any(self.is_constant_at(i) for i in range(self.output_size))", 'C12.DELEG')
-M('c12-deleg-inverse-dropped', 'C12', TTB, "            self.is_monotone_at(i, inverse=inverse) for i in range(self.output_size)", "            self.is_monotone_at(i) for i in range(self.output_size)", 'C12.DELEG')
-M('c12-define-nocopy', 'C12', TTB, "        _table_cp = copy.deepcopy(self._table)", "        _table_cp = self._table", 'C12.DEFINE')
-M('c12-define-overwrite', 'C12', PYF, "                if answer[idx] != DontCare:\n                    continue\n", "                if (args_tuple, idx) not in definition:\n                    continue\n", 'C12.DEFINE')
-M('c12-define-self', 'C12', BFN, "        if definition:\n            raise BadDefinitionError(\"Boolean function is already defined.\")\n        return self", "        return self", 'C12.DEFINE')
+  "            result = canonical_index_to_input(number, output_int_len)\n            if big_endian:\n                result = result[::-1]\n            return result\n\n        return PyFunction(func=_func, input_size=input_int_len)", 'C12.')
+M('c12-deleg-any', 'C12', TTB, "        return all(self.is_constant_at(i) for i in range(self.output_size))", "        return any(self.is_constant_at(i) for i in range(self.output_size))", 'C12.')
+M('c12-deleg-inverse-dropped', 'C12', TTB, "            self.is_monotone_at(i, inverse=inverse) for i in range(self.output_size)", "            self.is_monotone_at(i) for i in range(self.output_size)", 'C12.')
+M('c12-define-nocopy', 'C12', TTB, "        _table_cp = copy.deepcopy(self._table)", "        _table_cp = self._table", 'C12.')
+M('c12-define-overwrite', 'C12', PYF, "                if answer[idx] != DontCare:\n                    continue\n", "                if (args_tuple, idx) not in definition:\n                    continue\n", 'C12.')
+M('c12-define-self', 'C12', BFN, "        if definition:\n            raise BadDefinitionError(\"Boolean function is already defined.\")\n        return self", "        return self", 'C12.')
 CUT = 'cirbo/core/circuit/utils.py'
 M('c12-iter-shared-buffer', 'C12', CUT, "        yield list(_inp)", "        yield _inp", 'C12.ITER')
 M('c12-iter-weight-off', 'C12', CUT, "itertools.combinations(range(input_size), number_of_true)", "itertools.combinations(range(1, input_size), number_of_true)", 'C12.ITER')
